@@ -467,6 +467,8 @@ const HELPERS: &str = r#"
                           (if (= kind 1) (vector n 'r)
                               (list n (list n))))
                       acc))))
+(define (c19-mv n acc)
+  (if (= n 0) acc (c19-mv (- n 1) (make-vector 1 acc))))
 (define (c19-closures n prev)
   (if (= n 0) prev (c19-closures (- n 1) (lambda () (+ 1 (prev))))))
 (define (c19-conts n prev)
@@ -818,6 +820,13 @@ fn run_data(scn: &Scn, pattern: &[Lv], leaf: &str) -> Result<String, String> {
                     } else {
                         let d = eval_all(&mut vm, "(c19-descend x 0)")?;
                         note = format!("levels={:#}", d);
+                        if scn.dir == "vector" {
+                            // the same nest built with make-vector's fill argument
+                            phase("build");
+                            eval_all(&mut vm, &format!("(define xm (c19-mv {} '()))", n))?;
+                            let d = eval_all(&mut vm, "(c19-descend xm 0)")?;
+                            note = format!("{} make-vector-levels={:#}", note, d);
+                        }
                     }
                 }
                 "gc" => {
@@ -828,6 +837,16 @@ fn run_data(scn: &Scn, pattern: &[Lv], leaf: &str) -> Result<String, String> {
                     phase("gc:use-after-collect");
                     let d = eval_all(&mut vm, "(c19-descend x 0)")?;
                     note = format!("{} levels-after-collect={:#}", nat, d);
+                    if scn.dir == "vector" {
+                        phase("setup:build");
+                        eval_all(&mut vm, &format!("(define xm (c19-mv {} '()))", n))?;
+                        phase("gc:collect");
+                        vm.verif_force_gc();
+                        vm.verif_force_gc();
+                        phase("gc:use-after-collect");
+                        let d = eval_all(&mut vm, "(c19-descend xm 0)")?;
+                        note = format!("{} make-vector-levels-after-collect={:#}", note, d);
+                    }
                 }
                 "equal?" => {
                     phase("setup:build");
